@@ -1,3 +1,4 @@
+import Tx3Model.Resolve
 import Tx3Proofs.C02
 import Tx3Proofs.C07Reduce
 
@@ -45,5 +46,32 @@ theorem C05_fee_chain (f : Int) :
     ∃ r, (applyFees f feesPlaceholder).reduce = .ok r ∧ exprIntoNumberC r = .ok f := by
   rw [applyFees_placeholder]
   exact ⟨_, reduce_feeExpr f, feeExpr_as_number f⟩
+
+/-! ## the estimate -/
+
+/-- **The reported fee is the linear fee or a refusal.** `eval_size_fees` never panics; what it returns is exactly
+`a * len + b + margin`, and it returns it whenever that amount (with non-negative parameters) fits 64 bits. -/
+theorem C05_fee_estimate_exact (p : FeeParams) (len : Nat) :
+    Outcome.NoPanic (p.evalSizeFees len) ∧
+    (∀ f, p.evalSizeFees len = .ok f → f = (len : Int) * p.a + p.b + p.margin ∧ f < 2^64) ∧
+    (0 ≤ p.a → 0 ≤ p.b → 0 ≤ p.margin → p.sizeFee len < 2^64 → p.evalSizeFees len = .ok (p.sizeFee len)) := by
+  unfold FeeParams.evalSizeFees
+  refine ⟨?_, ?_, ?_⟩
+  · split
+    · exact Outcome.np_ok _
+    · exact Outcome.np_err _
+  · intro f h
+    split at h
+    · rename_i hc
+      cases h
+      exact ⟨rfl, hc.2.2⟩
+    · cases h
+  · intro ha hb hm hs
+    have h0 : (0 : Int) ≤ (len : Int) * p.a := Int.mul_nonneg (Int.natCast_nonneg _) ha
+    unfold FeeParams.sizeFee at hs ⊢
+    rw [if_pos ⟨by omega, by omega, hs⟩]
+
+example : ({ a := 44, b := 155381, margin := 200000 } : FeeParams).evalSizeFees 300 = .ok 368581 := by decide
+example : ({ a := 2^32, b := 0, margin := 0 } : FeeParams).evalSizeFees (2^32) = .err "CoerceError:fee" := by decide
 
 end Tx3
